@@ -381,6 +381,7 @@ fn to_addr(ip: &Ip) -> IpAddress {
         Ip::V6(a) => IpAddress::Ipv6(Ipv6Address::from_bits(*a)),
     }
 }
+#[allow(dead_code)]
 fn from_addr(a: &IpAddress) -> Ip {
     match a {
         IpAddress::Ipv4(x) => Ip::V4(x.to_bits()),
@@ -801,7 +802,8 @@ fn parse_emitted(med: Med, f: &[u8]) -> Em {
                     }
                 }
             }
-            e.frag = dgram_size.is_some();
+            // 6LoWPAN fragmentation is property C20's: not reported as an IPv4-style fragment
+            e.frag = false;
             e
         }
     }
@@ -1095,7 +1097,9 @@ include!("h_ingress_inc/gen.rs");
 include!("h_ingress_inc/oracle.rs");
 
 fn main() {
-    quiet_panics();
+    if std::env::var("INGRESS_LOUD").is_err() {
+        quiet_panics();
+    }
     let (sub, seed, n, tier) = args();
     let stdout = std::io::stdout();
     let mut out = std::io::BufWriter::new(stdout.lock());
@@ -1110,6 +1114,13 @@ fn main() {
                 run_case(&c, &mut out);
             }
         }
+        "witness" => {
+            // witness <dir-prefix>: one corpus file per witness is written by the caller from this output
+            for (name, s) in witnesses() {
+                writeln!(out, "# witness {}", name).unwrap();
+                scn_to_case(format!("w-{}", name), &s).write(&mut out);
+            }
+        }
         "count" => {
             writeln!(out, "{}", product_size()).unwrap();
         }
@@ -1118,20 +1129,21 @@ fn main() {
             let mut stats: BTreeMap<String, u64> = BTreeMap::new();
             let scns = gen_scenarios(seed ^ 0x00c1_1c10, n, &tier, "o");
             let total = scns.len();
+            // every scenario is evaluated; at most 3 FAIL lines (with their case) are kept per class
+            let mut per_class: BTreeMap<String, u64> = BTreeMap::new();
             for (id, s) in scns {
-                let before = fails.len();
-                oracle_scn(&id, &s, &mut fails, &mut stats);
-                if fails.len() > before {
-                    writeln!(out, "FAILCASE").unwrap();
-                    scn_to_case(id, &s).write(&mut out);
-                    // one FAILCASE block per FAIL line so that the orchestrator pairs them up
-                    for _ in before + 1..fails.len() {
+                let mut now: Vec<String> = vec![];
+                oracle_scn(&id, &s, &mut now, &mut stats);
+                for f in now {
+                    let class = f.split("::").next().unwrap().trim().to_string();
+                    let k = per_class.entry(class.clone()).or_default();
+                    *k += 1;
+                    *stats.entry(format!("fail_{}", class)).or_default() += 1;
+                    if *k <= 3 {
                         writeln!(out, "FAILCASE").unwrap();
-                        writeln!(out, "end").unwrap();
+                        scn_to_case(id.clone(), &s).write(&mut out);
+                        fails.push(f);
                     }
-                }
-                if fails.len() > 400 {
-                    break;
                 }
             }
             for f in &fails {
